@@ -761,9 +761,19 @@ class TraceManager:
         self.refgraph.remove_with_referred(removed)
         for node in removed:
             if node[OBJ].model is not self:     # dependant in another model
-                node[OBJ].model.clear_with_descs(node)
+                self._clear_in_other_model(node)
             elif node_has_key(node):
                 node[OBJ].on_clear_trace(node[KEY])
+
+    @staticmethod
+    def _clear_in_other_model(node):
+        """Clear `node` of another model recorded as a dependant in this one"""
+        obj = node[OBJ]
+        if node_has_key(node) and node[KEY] in getattr(obj, "input_keys", ()):
+            # A value was assigned after the dependency was recorded.
+            # An assigned value has no precedents.
+            return
+        obj.model.clear_with_descs(node)
 
     def clear_obj(self, obj):
         """Clear values and nodes of `obj` and their dependants."""
@@ -771,7 +781,7 @@ class TraceManager:
         self.refgraph.remove_with_referred(removed)
         for node in removed:
             if node[OBJ].model is not self:     # dependant in another model
-                node[OBJ].model.clear_with_descs(node)
+                self._clear_in_other_model(node)
             elif node_has_key(node):
                 node[OBJ].on_clear_trace(node[KEY])
 
@@ -781,7 +791,7 @@ class TraceManager:
             descs = self.tracegraph.remove_with_descs(node)
             for desc in descs:
                 if desc[OBJ].model is not self:     # dependant in another model
-                    desc[OBJ].model.clear_with_descs(desc)
+                    self._clear_in_other_model(desc)
                 else:
                     desc[OBJ].on_clear_trace(desc[KEY])
 
